@@ -55,6 +55,9 @@ func runC16(r *mon.Run) {
 			if rng.Chance(1, 3) {
 				sv[j] = rng.Below(n)
 			}
+			if rng.Chance(1, 4) {
+				sv[j], _ = glvSteered(rng) // matters for the one-term lists (delegated to the GLV multiply)
+			}
 			if rng.Chance(1, 10) || unknownShare(rng, len(unknown)) {
 				pv[j] = unknown[rng.Intn(len(unknown))]
 			} else {
@@ -111,6 +114,12 @@ func runC16(r *mon.Run) {
 			}
 			scal[j] = scalarFromBig(sv[j])
 			pts[j] = pointRep(pv[j].P, z)
+			switch rng.Intn(6) {
+			case 0:
+				pts[j], _ = pointWithHistory(rng, pv[j].P)
+			case 1:
+				pts[j], _ = freshPointVia(rng, pv[j].P, nil)
+			}
 		}
 		if nontrivRep {
 			w.Class("c16:rep-nontrivial")
@@ -259,6 +268,13 @@ func runC16(r *mon.Run) {
 		rng := w.Rng
 		u1, _ := rng.Value(n)
 		u2, _ := rng.Value(n)
+		if rng.Chance(1, 3) {
+			u2, _ = glvSteered(rng) // u2 goes through the GLV decomposition
+			w.Class("c16:dsm:u2-glv-steered")
+		}
+		if rng.Chance(1, 6) {
+			u1, _ = glvSteered(rng)
+		}
 		P := known[rng.Intn(len(known))]
 		if rng.Chance(1, 8) {
 			P = unknown[rng.Intn(len(unknown))]
@@ -305,6 +321,12 @@ func runC16(r *mon.Run) {
 		}
 		z, cz := repZ(rng)
 		lp := pointRep(P.P, z)
+		switch rng.Intn(5) {
+		case 0:
+			lp, _ = pointWithHistory(rng, P.P)
+		case 1:
+			lp, _ = freshPointVia(rng, P.P, nil)
+		}
 		v := new(Point)
 		aliased := i%3 == 1
 		if aliased {
